@@ -102,7 +102,7 @@ def sigs(f: Func, e: ast.AST, at: ast.AST, depth: int = 0) -> Set[tuple]:
                     if isinstance(inner, ast.Call) and astx.u(inner.func).endswith(".items") and e.id in names and len(names) == 2:
                         out.add(("keys" if names.index(e.id) == 0 else "values", N.key(inner.func.value)))
                         continue
-                if isinstance(st, ast.Assign) and isinstance(st.targets[0], ast.Tuple) and isinstance(st.value, ast.ListComp):
+                if isinstance(st, ast.Assign) and isinstance(st.targets[0], ast.Tuple) and isinstance(st.value, astx.LCOMP):
                     # blocs_og, values_og = [list(x) for x in zip(*D.items())]
                     lc = st.value
                     it = lc.generators[0].iter
